@@ -34,7 +34,17 @@ func oneHistory(r *corr.Run, id, nAcc, steps int) {
 	if r.Chance(60) {
 		cycleAt = 2 + r.Intn(6)
 	}
+	composeAt := -1
+	if r.Chance(75) {
+		composeAt = 1 + r.Intn(5)
+	}
 	for s := 0; s < steps && r.TimeLeft() && r.Issues() == 0; s++ {
+		if s == composeAt || r.Chance(7) {
+			if !h.composedStep() {
+				break
+			}
+			continue
+		}
 		if s == cycleAt || r.Chance(6) {
 			if !h.readmitCycle() {
 				break
